@@ -184,7 +184,7 @@ inductive Out where
   | listing (l : List (String × Nat × ETag × Option String))
   | versions (l : List VerView)
   | buckets (l : List String)
-  deriving Repr, Inhabited
+  deriving Repr, Inhabited, DecidableEq
 
 -- ---------------------------------------------------------------- helpers
 
@@ -299,7 +299,9 @@ def putRow (q : Quirks) (s : State) (bk : Bucket) (k : String) (n : NewObj)
     let bk1 := match cur with
       | some r => if inm || im != .none then replaceRow bk (touch q now r) else bk
       | none => bk
-    if inm && bk.ver != .enabled && (nullRow bk1 k).isSome then .error .preconditionFailed
+    -- (repaired in /repo 373419f: only a null version that is the CURRENT row refuses If-None-Match;
+    --  before, any null row did, also one hidden under a delete marker)
+    if inm && bk.ver != .enabled && (nullRow bk1 k).any (·.latest) then .error .preconditionFailed
     else .ok (install q s bk1 k n)
 
 /-- After deleting a latest row: promote the next one. -/
@@ -379,6 +381,16 @@ def scanDeclared (prev : Nat) (stored : List Nat) : List Nat → Option Err
     else if !stored.contains d then some .invalidPart
     else scanDeclared d stored ds
 
+/-- The error, if any, of the client-declared completion manifest against the uploaded parts. -/
+def declaredErr (u : Upload) (declared : Option (List Nat)) : Option Err :=
+  match declared with
+  | none => none
+  | some ds =>
+    if ds.isEmpty then none
+    else match scanDeclared 0 (u.parts.map (·.1)) ds with
+      | some e => some e
+      | none => if ds.length != u.parts.length then some .invalidPart else none
+
 def keyLt (a b : String) : Bool := a < b
 
 def insertSorted {α} (lt : α → α → Bool) (x : α) : List α → List α
@@ -389,8 +401,8 @@ def sortBy {α} (lt : α → α → Bool) (l : List α) : List α := l.foldr (in
 
 -- ---------------------------------------------------------------- the step function
 
-def step (q : Quirks) (s0 : State) (op : Op) : State × Out :=
-  let s := { s0 with clock := s0.clock + 1 }
+/-- One operation on a state whose clock has already been advanced (see `step`). -/
+def stepT (q : Quirks) (s : State) (op : Op) : State × Out :=
   let now := s.clock
   let withBucket (b : String) (f : Bucket → State × Out) : State × Out :=
     match findBucket s b with
@@ -501,14 +513,7 @@ def step (q : Quirks) (s0 : State) (op : Op) : State × Out :=
     | some u =>
       if !contiguousFrom 1 u.parts then (s, .err .other)
       else
-        let declErr : Option Err := match declared with
-          | none => none
-          | some ds =>
-            if ds.isEmpty then none
-            else match scanDeclared 0 (u.parts.map (·.1)) ds with
-              | some e => some e
-              | none => if ds.length != u.parts.length then some .invalidPart else none
-        match declErr with
+        match declaredErr u declared with
         | some e => (s, .err e)
         | none =>
           let parts := u.parts.map (·.2)
@@ -560,6 +565,10 @@ def step (q : Quirks) (s0 : State) (op : Op) : State × Out :=
       { key := r.key, vid := r.vid, latest := r.latest, dm := r.dm, size := r.size, updated := r.updated,
         rowId := r.rowId, cls := r.cls }))
   | .listBuckets => (s, .buckets (sortBy (· < ·) (s.buckets.map (·.name))))
+
+/-- One operation: the logical clock ticks, then the operation runs. -/
+def step (q : Quirks) (s0 : State) (op : Op) : State × Out :=
+  stepT q { s0 with clock := s0.clock + 1 } op
 
 def run (q : Quirks) (s : State) : List Op → State × List Out
   | [] => (s, [])
